@@ -347,6 +347,12 @@ func (m *Message) GetClassAdRaw(ctx context.Context) (string, error) {
 func (m *Message) GetClassAdRawBody(ctx context.Context, numExprs int) (string, error) {
 	var b strings.Builder
 	for i := 0; i < numExprs; i++ {
+		// A plaintext GetString at end-of-message returns "" without error, so a
+		// peer-supplied count larger than the message would otherwise spin here
+		// (and grow b) long after the data ran out.
+		if m.Finished() {
+			return "", fmt.Errorf("message ended after %d of %d expressions", i, numExprs)
+		}
 		exprStr, err := m.GetString(ctx)
 		if err != nil {
 			return "", fmt.Errorf("failed to read expression %d (expected %d): %w", i, numExprs, err)
